@@ -103,7 +103,7 @@ pub fn gen_history(r: &mut Rng, max_steps: usize, with_faults: bool) -> History 
             steps.push(Step::Delete { side, path });
         } else if with_faults && k < 64 {
             steps.push(Step::BisyncFault {
-                kind: r.below(6) as u8,
+                kind: r.below(7) as u8,
                 nth: r.range(1, 6) as u32,
             });
         } else {
